@@ -1,0 +1,51 @@
+// Copyright 2017-2021 Lei Ni (nilei81@gmail.com) and other contributors.
+//
+// Licensed under the Apache License, Version 2.0 (the "License");
+// you may not use this file except in compliance with the License.
+// You may obtain a copy of the License at
+//
+//     http://www.apache.org/licenses/LICENSE-2.0
+//
+// Unless required by applicable law or agreed to in writing, software
+// distributed under the License is distributed on an "AS IS" BASIS,
+// WITHOUT WARRANTIES OR CONDITIONS OF ANY KIND, either express or implied.
+// See the License for the specific language governing permissions and
+// limitations under the License.
+
+//go:build verif
+// +build verif
+
+package raft
+
+// This file is only compiled with the `verif` build tag. The in-memory entry
+// slice sizes and the apply batch size limit are soft settings (see
+// internal/settings/soft.go) that users can override with a json file placed
+// in the working directory; the setters below let the simulation harness pick
+// small values per run so that the resize and batch limit paths are reached
+// with short logs. Not safe for concurrent use with a running raft node.
+
+// VerifEntryLogSettings is the set of soft settings used by the entry log.
+type VerifEntryLogSettings struct {
+	EntrySliceSize        uint64
+	MinEntrySliceFreeSize uint64
+	MaxEntriesToApplySize uint64
+}
+
+// VerifGetEntryLogSettings returns the values currently in use.
+func VerifGetEntryLogSettings() VerifEntryLogSettings {
+	return VerifEntryLogSettings{
+		EntrySliceSize:        entrySliceSize,
+		MinEntrySliceFreeSize: minEntrySliceSize,
+		MaxEntriesToApplySize: maxEntriesToApplySize,
+	}
+}
+
+// VerifSetEntryLogSettings replaces the values in use.
+func VerifSetEntryLogSettings(s VerifEntryLogSettings) {
+	if s.MinEntrySliceFreeSize >= s.EntrySliceSize {
+		panic("MinEntrySliceFreeSize >= EntrySliceSize")
+	}
+	entrySliceSize = s.EntrySliceSize
+	minEntrySliceSize = s.MinEntrySliceFreeSize
+	maxEntriesToApplySize = s.MaxEntriesToApplySize
+}
